@@ -178,7 +178,13 @@ def out_of_domain(kind: str) -> list:
                 1700000000, "2020-01-01", None, datetime.date(2020, 1, 1)]
     if kind == "address":
         return ["1.2.3", "1.2.3.4.5", "256.1.1.1", "1:2", ":::", "g::1", "1.2.3.4:80", 5, None,
-                b"1.2.3.4", ["1.2.3.4"], "12\ud800"]
+                b"1.2.3.4", ["1.2.3.4"], "12\ud800",
+                # texts that some other address parser (ipaddress, inet_aton, getaddrinfo, URL syntax) takes but that are
+                # not an IPv4 / IPv6 address: accepting one means dropping or re-reading part of what the caller wrote
+                "fe80::1%eth0", "::1%1", "2001:db8::5%3", "fe80::1%", "1.2.3.4%1", "127.1", "1.2.3", "0x7f.0.0.1",
+                "017.0.0.1", "1.2.3.4 ", " 1.2.3.4", "1.2.3.4\n", "1.2.3.4 x", "1.2.3.4/32", "::1/128", "[::1]",
+                "[::1]:3868", "example.org", "localhost.", "\uff11.2.3.4", "1::2::3", "12345::1", "::ffff:1.2.3",
+                "1.2.3.4.", ".1.2.3.4", "::1 ", "1.2.3.4\x00", "::1\x00"]
     raise ValueError(kind)
 
 
